@@ -192,6 +192,7 @@ impl Voter {
                 {
                     VoteResult::Unanimous
                 } else {
+                    voted.set(false);
                     VoteResult::UnanimityPending
                 }
             } else {
@@ -208,6 +209,7 @@ impl Voter {
                         )
                         .is_ok()
                     {
+                        voted.set(false);
                         break VoteResult::UnanimityPending;
                     }
                 }
